@@ -13,7 +13,7 @@ USES_TRANSLATOR = True
 RULE = ("cases as C10; for each: impl bytes == bytes of an independent encoder written from the format docstring (and == "
         "the Lean model's bytes); independent decoder recovers the data from impl bytes; impl loader recovers the data from "
         "independently encoded bytes for every legal coordinate word size >= the narrowest and row-id word sizes 1/2/4/8; "
-        "size field checked at 2^30-1, 2^30, 2^32+5 total row ids with duck-typed arrays (nothing materialised). "
+        "entries of 2^16-1 .. 2^17+5 row ids mixed with short ones in every order (bytes vs the independent encoder, loader round trip); size field checked at 2^30-1, 2^30, 2^32+5 total row ids with duck-typed arrays (nothing materialised). "
         "Non-trivial = at least one entry; distinct by (input, widths)")
 ASSUMPTIONS = ["the class docstring of IndxIO is the format specification", "little-endian platform"]
 
@@ -63,7 +63,8 @@ def size_field_case(ctx, total, parts, reqs, pend):
 def check_case(ctx, ld, case, reqs, pend):
     entries, common = case["entries"], case["common"]
     ctx.case(X.small_desc(case), nontrivial=bool(entries))
-    sv = X.impl_save(entries, common)
+    sv = X.impl_save(entries, common, case.get("layout"))
+    ctx.hit("rowid_layout:%s" % (case.get("layout") or "contiguous"))
     if sv[0] != "ok":
         ctx.oracle_fail("save raised %s" % sv[1], X.small_desc(case), cls="C11-save-raises")
         return
@@ -110,6 +111,27 @@ def check_case(ctx, ld, case, reqs, pend):
             pend.append(("load", c2, lo))
 
 
+def long_case(ctx, ld, case):
+    """entries with row-id arrays around 2^16 / 2^17 ids mixed with short ones: written bytes == documented layout,
+    and the loader gives the same entries back (oracle only: the model is not asked to encode 10^5 words)"""
+    entries = X.expand_long(case)
+    ctx.case(case, nontrivial=True)
+    ctx.hit("long_entries:" + "".join("l" if d[1] >= 65535 else "s" for d in case["long"]))
+    sv = X.impl_save(entries, case["common"], case.get("layout"))
+    if sv[0] != "ok":
+        ctx.oracle_fail("save raised %s" % sv[1], case, cls="C11-save-raises")
+        return
+    spec = X.spec_encode(entries, case["common"])
+    if sv[1] != spec:
+        i = next((i for i, (x, y) in enumerate(zip(sv[1], spec)) if x != y), min(len(sv[1]), len(spec)))
+        ctx.oracle_fail("bytes differ from the documented layout at offset %d (entries of %s row ids): wrote %s, layout says %s" % (
+            i, [d[1] for d in case["long"]], sv[1][i:i + 12].hex(), spec[i:i + 12].hex()), case, cls="C11-bytes")
+        return
+    lo = ld.load(sv[1])
+    if lo[0] != "ok" or lo[1] != X.canon(entries) or lo[2] != case["common"]:
+        ctx.oracle_fail("loader does not give back entries of %s row ids" % [d[1] for d in case["long"]], case, cls="C11-reader")
+
+
 def run(ctx):
     core.load_catii()
     ld = X.Loader()
@@ -120,6 +142,15 @@ def run(ctx):
         for case in X.exhaustive_cases():
             if len(case["entries"]) <= 1 or ctx.scale > 1 or ctx.rng.random() < 0.25:
                 check_case(ctx, ld, case, reqs, pend)
+        # row-id arrays that are non-contiguous views (a slice with a step, a matrix column, a reversed view)
+        for lay in ("stride2", "column", "backwards"):
+            for arity in (1, 2):
+                check_case(ctx, ld, {"entries": [[[1] + [0] * (arity - 1), [0, 2, 5]], [[2] + [1] * (arity - 1), [1, 4, X.U32]]],
+                                     "common": 0, "arity": arity, "layout": lay}, reqs, pend)
+        for fixed in (["s", "l"], ["l", "s"], ["s", "l", "s", "l"], None, None):
+            long_case(ctx, ld, X.long_desc(ctx.rng, fixed))
+        for _ in range(ctx.n(3) if ctx.scale > 1 else 0):
+            long_case(ctx, ld, X.long_desc(ctx.rng))
         for _ in range(ctx.n(120)):
             check_case(ctx, ld, X.gen_case(ctx.rng, small=True), reqs, pend)
         if ctx.oracle_only:
@@ -152,5 +183,7 @@ def replay(ctx, rep):
         c2 = core.Ctx(ID, "quick", 0)
         size_field_case(c2, c["duck_total_rowids"], c["entries"], [], [])
         return not c2.oracle_failures
-    sv = X.impl_save(c["entries"], c["common"])
+    if "long" in c:
+        c = dict(c, entries=X.expand_long(c))
+    sv = X.impl_save(c["entries"], c["common"], c.get("layout"))
     return sv[0] == "ok" and sv[1] == X.spec_encode(c["entries"], c["common"])
